@@ -142,10 +142,11 @@ pub fn behaviour() -> Behaviour {
         cfg,
         adjust,
         render,
-        quick: 4000,
+        quick: 7000,
         thorough: 20000,
         batch: 25,
         assumptions: &["m_into_* methods add a target-specific offset so that method identity is observable"],
         miri_units: 0,
+        extra: None,
     }
 }
